@@ -37,6 +37,9 @@ type Spec struct {
 	// Split > 0: the chain is handed over in two WithMiddleware options (the first Split layers, then the
 	// rest); the configured order is the order of the options.
 	Split int `json:"split,omitempty"`
+	// Spin: every Receive of the target yields this many times (runtime.Gosched) before it returns - a slow
+	// receiver, which makes two invocations that are not serialised overlap in time instead of by luck
+	Spin int `json:"spin,omitempty"`
 	// SpawnCtx: "" = no WithContext option, "live" = a context that is never cancelled, "cancelled" = a
 	// context that is cancelled before Spawn is called.  The spawn context is user data
 	// (Context.Context()); none of the listed properties lets it influence the actor.
